@@ -206,6 +206,8 @@ pub struct Outcome {
     pub superseded: bool,
     /// the tuning of the first key input was applied
     pub tuned: bool,
+    /// a script data hash was computed while a later-corrected Plutus registration was in place
+    pub interim_hash: bool,
     /// key hashes declared (set_required_signers) for native scripts supplied through reference inputs
     pub declared_signers: Vec<Vec<u8>>,
     /// every script use carries the same unit redeemer (no markers: uses are told apart by pointer only)
@@ -238,6 +240,8 @@ pub struct Scn<'a> {
     pub superseded: bool,
     /// the tuning of the first key input was applied
     pub tuned: bool,
+    /// a script data hash was computed while a later-corrected Plutus registration was in place
+    pub interim_hash: bool,
     /// key hashes declared (set_required_signers) for native scripts supplied through reference inputs
     pub declared_signers: Vec<Vec<u8>>,
     /// every script use carries the same unit redeemer (no markers: uses are told apart by pointer only)
@@ -268,7 +272,7 @@ pub fn val_to_csl(v: &Val) -> Value {
 impl<'a> Scn<'a> {
     pub fn new(r: &'a mut Rng, ring: &'a KeyRing, f: Focus) -> Scn<'a> {
         let net = r.below(2) as u8;
-        Scn { r, ring, f, utxos: vec![], log: vec![], markers: vec![], next_marker: 1000, next_tx: 1, declared_refs: vec![], net, used_langs: vec![], panics: vec![], extra_signers: vec![], superseded: false, tuned: false, declared_signers: vec![], unit_redeemers: false, datum_refs: vec![], cert_order: vec![], verbatim_datums: false }
+        Scn { r, ring, f, utxos: vec![], log: vec![], markers: vec![], next_marker: 1000, next_tx: 1, declared_refs: vec![], net, used_langs: vec![], panics: vec![], extra_signers: vec![], superseded: false, tuned: false, interim_hash: false, declared_signers: vec![], unit_redeemers: false, datum_refs: vec![], cert_order: vec![], verbatim_datums: false }
     }
     fn p(&mut self, num: u64) -> bool {
         self.r.below(16) < num
@@ -1276,6 +1280,16 @@ pub fn run_scenario(r: &mut Rng, ring: &KeyRing, f: Focus) -> Option<Outcome> {
                         let wit = PlutusWitness::new_with_ref_without_datum(&PlutusScriptSource::new(&ring.plutus[si]), &red);
                         // (the address-less call: add_plutus_script_utxo refuses a key address)
                         let _ = g!(s, "inputs.add_plutus_script_input(superseded)", inputs_b.add_plutus_script_input(&wit, &u.input(), &u.output().amount()));
+                        if s.p(8) {
+                            // ... and had the script data hash computed in between: the later computation (after
+                            // the correction) replaces it, also when no script data is left
+                            g!(s, "set_inputs(interim)", tb.set_inputs(&inputs_b));
+                            let lt = Scn::lang_tag(&ring.plutus[si].language_version());
+                            let (cm, _) = cost_models_for(&[lt], s.r);
+                            let r0 = g!(s, "calc_script_data_hash(interim)", tb.calc_script_data_hash(&cm));
+                            s.log.push(format!("calc_script_data_hash while the slip was in place -> {}", r0.as_ref().map(ok_str).unwrap_or("PANIC".into())));
+                            s.interim_hash = true;
+                        }
                         s.log.push(format!("key input first registered with a plutus witness (marker {}), then re-registered as a key input", m_stale));
                         s.superseded = true;
                         // the caller goes on as for any Plutus transaction (collateral, script data hash)
@@ -1649,6 +1663,7 @@ pub fn run_scenario(r: &mut Rng, ring: &KeyRing, f: Focus) -> Option<Outcome> {
         extra_signers: s.extra_signers,
         superseded: s.superseded,
         tuned: s.tuned,
+        interim_hash: s.interim_hash,
         declared_signers: s.declared_signers,
         unit_redeemers: s.unit_redeemers,
         datum_refs: s.datum_refs,
